@@ -243,6 +243,26 @@ def stored_arrays(inp):
         return [rho], lambda: [x for sd in d.system_dynamics for x in sd.states]
     sites['compute_dynamics_with_field result'] = s_cdf
 
+    def s_tempo(layout):
+        def f():
+            sz_ = oqupy.operators.sigma('z')
+            corr = oqupy.PowerLawSD(alpha=0.1, zeta=1.0, cutoff=3.0, cutoff_type='exponential', temperature=0.2)
+            rho = np.array([[0.7, 0.1 - 0.2j], [0.1 + 0.2j, 0.3]])
+            rho = np.asfortranarray(rho) if layout == 'F' else rho
+            t = oqupy.Tempo(oqupy.System(0.3 * sx), oqupy.Bath(0.5 * sz_, corr), oqupy.TempoParameters(dt=0.1, dkmax=3, epsrel=1e-6), rho, 0.0)
+            ref = np.array(rho)
+            calls = []
+
+            def probe():
+                # first probe (before the caller changes its array): the state given to the constructor; second probe (after): the
+                # first state of the dynamics that is computed THEN -- it must still be the constructor's state
+                calls.append(1)
+                return [ref] if len(calls) == 1 else [np.array(t.compute(0.2, progress_type='silent').states[0])]
+            return [rho], probe
+        return f
+    sites['Tempo initial state (C-ordered)'] = s_tempo('C')
+    sites['Tempo initial state (Fortran-ordered)'] = s_tempo('F')
+
     def s_pt(which):
         def f():
             pt = P.SimpleProcessTensor(hilbert_space_dimension=2)
@@ -282,6 +302,8 @@ def stored_arrays(inp):
     sites['ChainControl.add_single_site_control'] = s_cc
     tgt = inp.get('target') or ''
     names = [n for n in sites if ('[' + n + ',') in tgt] or list(sites)
+    if '_tempo_physical_input_parse' in tgt:
+        names = ['Tempo initial state (C-ordered)', 'Tempo initial state (Fortran-ordered)']
     if any(n in ('_parse_state', 'Dynamics.add') for n in names):
         names += [n for n in ('Dynamics', 'compute_dynamics result', 'compute_dynamics_with_field result') if n not in names]
     bad = []
